@@ -7,11 +7,15 @@
     and the wide load define the ISA's value; the helper call has the ISA's shape (theories/ClMiscProofs.v).
     The block structure: on an accepted program each jump's target pc is the ISA's (an instruction start), `brif` goes to the
     block of that pc when the condition holds and to the block of the next pc otherwise, `ja` to the target block
-    (theories/ClCfgProofs.v).  Not modelled: how the blocks are laid out and sealed (Cranelift's FunctionBuilder), what the
-    called helper does, Cranelift's code generation.  Those are exercised by checks/C04.py against
+    (theories/ClCfgProofs.v).  Composed (theories/ClStep.v, theories/ClRun.v): [cl_exec], the effect on registers and memory
+    of the IR built for one instruction (arm value -> set_dst; bounds check -> access; condition -> successor), is the ISA
+    step whenever the ISA step succeeds (C04_step_refines); and a whole run of it from the registers the regenerated prelude
+    defines returns the ISA's value and memory for every budget (C04_run_refines).  Not modelled: how the blocks are laid
+    out and sealed (Cranelift's FunctionBuilder), what the called helper does, Cranelift's code generation.  Those are exercised by checks/C04.py against
     the interpreter (= the ISA by theorem C01); the refusal of local calls is checked there too. *)
-From Coq Require Import ZArith List String.
-From RbpfV Require Import MachInt Ebpf ClirSem Isa ClAluProofs ClJmpProofs ClMemProofs ClMiscProofs WellFormed Verifier ClCfgProofs.
+From Coq Require Import ZArith List String Bool.
+From RbpfV Require Import MachInt Ebpf Cases ClirSem Mem Stack Helpers InterpDefs Isa MemLemmas Interp ClAluProofs ClJmpProofs ClMemProofs ClMiscProofs WellFormed Verifier
+  ClCfgProofs InterpProofs ClStep ClRun.
 From RbpfV.gen Require Import Opcodes ClAlu ClJmp ClMem ClMisc ClCfg.
 Import ListNotations.
 Open Scope Z_scope.
@@ -69,6 +73,60 @@ Theorem C04_brif_successors :
   gen_cl_targets_pair = ("next_pc", "target_pc")%string /\ gen_cl_brif_taken_is_second = true /\ gen_cl_brif_else_is_first = true.
 Proof. exact brif_blocks. Qed.
 
+(** one instruction: under what the verifier establishes about it (well-formed fields, destination a register, byte-swap
+    width 16/32/64, the second slot of a wide load present) and what compilation requires (helper calls only, helper
+    registered), with no registered extra ranges and real (non-null) packet / metadata slices: whenever the ISA step
+    succeeds, the IR built for the instruction has exactly its effect -- registers, next pc, memory, returned value.
+    A packet-relative load on an empty packet is excluded (lib.rs passes a null packet pointer then). *)
+Theorem C04_step_refines : forall E, env_ok E -> e_allowed E = [] ->
+  (e_mem_len E <> 0 -> e_mem_base E <> 0) -> (e_mbuff_len E <> 0 -> e_mbuff_base E <> 0) ->
+  forall i reg next fidx stacks m st,
+  wf_insn i -> ArmBase.regs_ok reg -> mem_ok m -> 0 <= dst i <= 10 -> In (opc i) cl_ops ->
+  ((opc i =? op_le) || (opc i =? op_be) = true -> In (imm i) [16; 32; 64]) ->
+  (opc i = op_lddw -> wf_insn (insn_at (e_prog E) next)) ->
+  (opc i = op_call -> src i = 0 /\ e_helpers E (u32 (imm i)) <> None) ->
+  (opc i = op_exit -> fidx = 0) ->
+  (opc i mod 8 = 0 -> e_mem_len E <> 0) ->
+  isa_exec E i reg next fidx stacks m = Ok st -> cl_exec E i reg next fidx stacks m = Ok st.
+Proof. exact cl_exec_refines. Qed.
+
+(** every opcode the verifier accepts is one Cranelift translates *)
+Theorem C04_accepted_opcodes_translated : forall o, supported o = true -> In o cl_ops.
+Proof. exact supported_cl. Qed.
+
+(** the entry registers of compiled code are the interpreter's, except r2 (length of what r1 points to) *)
+Theorem C04_entry_registers : forall E, env_ok E ->
+  cl_init_regs E = upd (isa_init_regs E) 2 (if e_mbuff_len E =? 0 then e_mem_len E else e_mbuff_len E).
+Proof. exact cl_init_regs_spec. Qed.
+
+(** whole executions, every budget: on an accepted program whose calls are helper calls to registered helpers, the compiled
+    program returns the value and leaves the memory of the ISA run from the same entry registers *)
+Theorem C04_run_refines : forall E m0 fuel r m',
+  bytes_ok (e_prog E) -> acc (e_prog E) -> env_ok E -> mem_ok m0 ->
+  e_allowed E = [] -> (e_mem_len E <> 0 -> e_mem_base E <> 0) -> (e_mbuff_len E <> 0 -> e_mbuff_base E <> 0) ->
+  (forall k, In k (starts (e_prog E)) ->
+     (opc (insn_at (e_prog E) k) = op_call ->
+        src (insn_at (e_prog E) k) = 0 /\ e_helpers E (u32 (imm (insn_at (e_prog E) k))) <> None) /\
+     (opc (insn_at (e_prog E) k) mod 8 = 0 -> e_mem_len E <> 0)) ->
+  isa_steps fuel E (cl_init_regs E, 0, 0, stacks0, m0) = ODone r m' ->
+  cl_run fuel E m0 = ODone r m'.
+Proof. exact cl_run_refines. Qed.
+
+(** non-vacuity of the run theorem: ldxw r0,[r1+0]; add r0,5; stxw [r10-4],r0; ldxw r3,[r10-4]; mov r0,r3; be32 r0; exit
+    on the packet 01 02 03 04 meets the hypotheses and returns bswap32(0x04030201 + 5) in both *)
+Definition run_prog : list Z := hexbytes 56 0x61100000000000000700000005000000630afcff0000000061a3fcff00000000bf30000000000000dc000000200000009500000000000000.
+Definition run_env : ienv :=
+  mk_env run_prog (fun _ => None) (usage_map run_prog None)
+         {| r_base := 0x10000000; r_data := [] |} {| r_base := 0x20000000; r_data := [1; 2; 3; 4] |} 0x30000000 [].
+Definition run_mem : mem :=
+  mk_mem {| r_base := 0x10000000; r_data := [] |} {| r_base := 0x20000000; r_data := [1; 2; 3; 4] |} 0x30000000
+         {| r_base := 0x40000000; r_data := [] |}.
+Example C04_run_example :
+  accb run_prog = true /\ bytes_okb run_prog = true /\ e_allowed run_env = [] /\
+  (exists m, isa_steps 100 run_env (cl_init_regs run_env, 0, 0, stacks0, run_mem) = ODone 0x06020304 m /\
+             cl_run 100 run_env run_mem = ODone 0x06020304 m).
+Proof. split; [vm_compute; reflexivity|]. split; [vm_compute; reflexivity|]. split; [reflexivity|]. eexists. split; vm_compute; reflexivity. Qed.
+
 (** non-vacuity: 50 opcodes; a division by a zero register gives 0, a 32-bit modulo by zero keeps all 64 bits *)
 Example C04_example :
   List.length cl_alu_ops = 50%nat /\ List.length cl_jmp_ops = 44%nat /\ List.length cl_mem_ops = 22%nat /\
@@ -88,3 +146,7 @@ Print Assumptions C04_wide_load.
 Print Assumptions C04_helper_call_shape.
 Print Assumptions C04_jump_blocks.
 Print Assumptions C04_brif_successors.
+Print Assumptions C04_step_refines.
+Print Assumptions C04_accepted_opcodes_translated.
+Print Assumptions C04_entry_registers.
+Print Assumptions C04_run_refines.
